@@ -115,7 +115,8 @@ class Result:
 
 
 class Interp:
-    def __init__(self, sub=None, track_store=None, module_consts=None, observe=None, max_iter=64):
+    def __init__(self, sub=None, track_store=None, module_consts=None, observe=None, max_iter=64, len_hi=None):
+        self.len_hi = INF if len_hi is None else len_hi
         self.sub = sub or {}
         self.track = track_store
         self.consts = module_consts or {}
@@ -161,7 +162,7 @@ class Interp:
         if isinstance(e, ast.Call):
             fn = unparse(e.func)
             if fn == "len":
-                return Iv(0, INF)
+                return Iv(0, self.len_hi)
             if fn == "int" and len(e.args) == 1:
                 return self.ev(e.args[0], env)
             if fn in ("min", "max") and e.args:
@@ -346,8 +347,8 @@ def _env_eq(a, b):
     return set(a) == set(b) and all(a[k] == b[k] for k in a)
 
 
-def run_function(fn_ast, env, sub=None, track_store=None, module_consts=None, observe=None):
-    it = Interp(sub, track_store, module_consts, observe)
+def run_function(fn_ast, env, sub=None, track_store=None, module_consts=None, observe=None, len_hi=None):
+    it = Interp(sub, track_store, module_consts, observe, len_hi=len_hi)
     body = [s for s in fn_ast.body if not (isinstance(s, ast.Expr) and isinstance(s.value, ast.Constant))]
     it.res.env = it.block(body, dict(env))
     return it.res
